@@ -49,6 +49,7 @@ Inductive bop :=
 | BOpen (retention : Z)     (* producer opens: create + purge *)
 | BSend (payload : Z)
 | BAge (d : Z)              (* time passes *)
+| BBack (d : Z)             (* the producer's clock steps back (unset RTC, restored VM) *)
 | BSeek (o : Z)
 | BSeekBegin
 | BIter.
@@ -60,6 +61,7 @@ Definition bstep (st : bstate) (op : bop) : bstate * bout :=
   | BOpen ret => (BState (p_open (s_now st) ret (s_bus st)) (s_now st) (s_cur st), ONone)
   | BSend p => (BState (p_send p (s_now st) (s_bus st)) (s_now st) (s_cur st), ONone)
   | BAge d => (BState (s_bus st) (s_now st + Z.max 0 d) (s_cur st), ONone)
+  | BBack d => (BState (s_bus st) (s_now st - Z.max 0 d) (s_cur st), ONone)
   | BSeek o => let r := c_seek (s_bus st) o in
                (BState (s_bus st) (s_now st) (match r with SeekOk => Some o | _ => s_cur st end), OSeek r)
   | BSeekBegin => (BState (s_bus st) (s_now st) (if b_exists (s_bus st) then c_seek_begin (s_bus st) else Some (-1)), ONone)
